@@ -172,6 +172,9 @@ class Check(PropertyCheck):
         texts += [gen.nested_boxes([["{a}"], [self.rng.choice(["lbl", '"q-|"', "{b,w}"])]]) +
                   self.rng.choice(["", "\n# Legend:\na = {fill:red}\nb = {stroke:blue}\n"]) for _ in range(n // 6)]
         texts += [gen.zoo(self.rng) for _ in range(n // 3)]
+        # the very first character of the input is special to some readers: byte-order mark, zero-width space, NUL
+        texts += [self.rng.choice(["\ufeff", "\u200b", "\0", "\ufeff\n", " \ufeff"]) + gen.zoo(self.rng) for _ in range(max(4, n // 10))]
+        texts += ["\ufeff+------+\n| box  |---->\n+------+\n"]
         return self.oracle(texts)
 
     def oracle_on_texts(self, texts):
